@@ -58,6 +58,8 @@ pub enum SStep {
     /// its connection the socket is already full again (endless header lines; the one client action
     /// that happens *inside* library calls)
     Firehose(usize),
+    /// the client passes this many descriptors (real pipe ends, SCM_RIGHTS) with the next byte it sends
+    PassFds(usize, usize),
 }
 
 #[derive(Clone, Debug)]
@@ -122,6 +124,7 @@ impl SStep {
             SStep::ClockStep(secs) => a(vec![json::s("clock_step"), json::i(*secs)]),
             SStep::Pace(ms) => a(vec![json::s("pace"), json::u(*ms as usize)]),
             SStep::Firehose(c) => a(vec![json::s("firehose"), json::u(*c)]),
+            SStep::PassFds(c, k) => a(vec![json::s("pass_fds"), json::u(*c), json::u(*k)]),
         }
     }
     pub fn from_json(j: &J) -> Result<SStep, String> {
@@ -152,6 +155,7 @@ impl SStep {
             "sleep" => SStep::Sleep(n(1)? as u64),
             "pace" => SStep::Pace(n(1)? as u64),
             "firehose" => SStep::Firehose(n(1)?),
+            "pass_fds" => SStep::PassFds(n(1)?, n(2)?),
             "clock_step" => SStep::ClockStep(a.get(1).and_then(|x| x.int()).ok_or("secs")? as i64),
             _ => return Err(format!("unknown step {}", k)),
         })
@@ -247,6 +251,8 @@ pub struct Client {
     /// a spinning sender (see SStep::Firehose) and how many of its bytes are in `sent` already
     pub firehose: bool,
     pub fire_synced: u64,
+    /// read ends of the pipes whose write ends this client passed to the server
+    pub pipes: Vec<crate::fds::Pipe>,
     /// server-side receives on this connection that failed with EAGAIN / EINTR
     pub read_faults_fired: usize,
     /// one entry per such failure: None until the first moment afterwards at which the epoll
@@ -676,6 +682,7 @@ impl ServerSim {
                                     read_fault: false,
                                     firehose: false,
                                     fire_synced: 0,
+                                    pipes: Vec::new(),
                                     read_faults_fired: 0,
                                     fault_marks: Vec::new(),
                                     any_srv_write_error: false,
@@ -912,6 +919,23 @@ impl ServerSim {
                 self.sig.u(17);
                 true
             }
+            SStep::PassFds(c, k) => match self.clients.get_mut(c) {
+                Some(cl) if !cl.closed && !cl.shut_wr && cl.pipes.len() + *k <= 12 => {
+                    let mut wr = Vec::new();
+                    for _ in 0..*k {
+                        if let Ok((p, w)) = crate::fds::make_pipe() {
+                            cl.pipes.push(p);
+                            wr.push(crate::fds::into_region(w));
+                        }
+                    }
+                    let conn = cl.conn;
+                    world::with(|w| w.client_pass_fds(conn, &wr));
+                    st.fault("F-fdspread:server-level");
+                    self.sig.u(21);
+                    true
+                }
+                _ => false,
+            },
             SStep::Firehose(c) => {
                 let script_len = self.scripts.get(*c).map(|s| s.len()).unwrap_or(0);
                 match self.clients.get_mut(c) {
@@ -2068,6 +2092,30 @@ impl ServerSim {
             let open_clients = self.clients.values().filter(|c| !c.closed && c.accept == Accept::Served).count();
             if streams > open_clients {
                 return Err(self.v("descriptor-leak", format!("{} connection descriptors held for {} clients that are still open", streams, open_clients)));
+            }
+            // descriptors a client passed along with its input: once the client is gone, everything
+            // yielded from it has been answered (the requests were consumed) and its connection has been
+            // released, nothing inside the server may keep them open - the read end of each pipe reports
+            // end-of-file (all write ends closed)
+            let held: Vec<usize> = fds.iter().filter_map(|(_, o)| if let FdObj::Stream(c) = o { self.conn_to_client.get(*c).cloned() } else { None }).collect();
+            for (id, cl) in self.clients.iter() {
+                if cl.pipes.is_empty() || !cl.closed || held.contains(id) {
+                    continue;
+                }
+                // a forked child that inherited the connection keeps the socket - and whatever is still
+                // queued in it - alive; that is the kernel's doing, not the server's
+                if world::with(|w| w.conns[cl.conn].extra_refs > 0) {
+                    continue;
+                }
+                st.probe("descriptors_passed_by_a_client_that_left");
+                for (k, p) in cl.pipes.iter().enumerate() {
+                    if !crate::fds::pipe_eof(p.rd) {
+                        return Err(self.v(
+                            "passed-descriptor-kept-open",
+                            format!("client {} passed {} descriptor(s), left, was answered and released - yet descriptor #{} it passed is still open somewhere in the server", id, cl.pipes.len(), k),
+                        ));
+                    }
+                }
             }
         }
         Ok(())
